@@ -34,6 +34,7 @@ MIN_REACH = {
     "runs_of_more_than_a_thousand_samples_through_a_pool": {"quick": 2, "thorough": 30},
     "samplers_whose_choices_mix_numbers_and_text": {"quick": 2, "thorough": 80},
     "runs_whose_outputs_are_all_nan": {"quick": 8, "thorough": 150},
+    "returned_frames_edited_in_place_by_the_caller": {"quick": 60, "thorough": 900},
     "tables_started_from_rows_given_at_construction": {"quick": 3, "thorough": 60},
     "runs_naming_a_constant_at_the_call": {"quick": 20, "thorough": 400},
     "runs_judged": {"quick": 250, "thorough": 4500},
@@ -405,6 +406,21 @@ def run_case(ctx, case):
                     bad.append("table on disk (%d rows) differs from the one in memory (%d rows)" % (len(dk), len(prev_rows)))
             except Exception as e:
                 bad.append("loading the table from disk raised %r" % (e,))
+        if not bad and run["rseed"] % 3 == 0 and len(last):
+            # the frame a run hands back is the caller's: they rescale a column and add one IN PLACE (notes, unit changes).
+            # The accumulated table is not theirs to change that way: it still holds the rows as they were sampled
+            try:
+                last[outs[0]] = [("edited", i) for i in range(len(last))]
+                last["caller_note"] = "mine"
+                with quiet():
+                    full2 = s.full_df
+                ctx.count("returned_frames_edited_in_place_by_the_caller")
+                if "caller_note" in full2.columns:
+                    bad.append("the caller's new column on the returned frame appeared in the accumulated table (columns %s)" % (list(full2.columns),))
+                elif [_cv_row(r, cols) for r in full2.to_dict("records")] != prev_rows:
+                    bad.append("earlier rows changed in the accumulated table when the caller edited the returned frame in place")
+            except Exception as e:
+                bad.append("reading the table after the caller edited the returned frame raised %r" % (e,))
         ctx.count("runs_judged")
         for msg in bad[:1]:
             ctx.violation(dict(case, at=list(hist)), "after %s: %s" % (hist, msg), dict(sig, oracle=msg.split(" ")[0], how=run["how"],
